@@ -191,8 +191,9 @@ static Plan gen_hist(u64 seed) {
     gen_history(r, font, p.ops, r.below(g_tier ? 41 : 25), 1, true);
     Op pr = gen_probe(r, font, text_max(r)); pr.s = "probe";
     if (r.chance(1, 2)) { std::vector<const Op *> withtext; for (auto &o : p.ops) if (!o.text.empty() && (o.kind == "make_seg" || o.kind == "probe_seg")) withtext.push_back(&o); if (!withtext.empty()) pr.text = withtext[r.below(u32(withtext.size()))]->text; }
+    if (g_pseudo_bias && g_pseudo_focus && g_pseudo_focus < 0x110000) { pr.text.insert(pr.text.begin() + long(r.below(u32(pr.text.size() + 1))), g_pseudo_focus); if (pr.text.size() < 2) pr.text.insert(pr.text.begin(), 0x61); }
     p.ops.push_back(pr); p.ops.push_back(pr); p.ops.push_back(rep);
-    g_pseudo_bias = 0;
+    g_pseudo_bias = 0; g_pseudo_focus = 0;
     return p;
 }
 
